@@ -862,12 +862,14 @@ func main() {
 	var total, execs, excluded, traces int64
 	cov := map[string]bool{}
 	perFam := map[string]int64{}
+	g1Expired := false
 	pool.Run(shards, pool.Options{}, func(si int, rb json.RawMessage) {
 		var r rec
 		json.Unmarshal(rb, &r)
 		switch r.Kind {
 		case "count":
 			if r.Expired {
+				g1Expired = true
 				c.NotExhaustive("internal wall-clock budget expired; the families were only partly enumerated (see g1_programs_by_family_context)")
 			}
 			total += r.N
@@ -941,6 +943,12 @@ func main() {
 		"finally-overrides:throw->return", "finally-overrides:return->return", "dispatch:first", "dispatch:later", "dispatch:none", "rt:rtp", "rt:rt0"}
 	for _, k := range need {
 		if !cov[k] {
+			if g1Expired {
+				// the budget cut the enumeration short (already reported as not exhaustive): a situation that
+				// was not reached is not a vacuous generator
+				c.Add("vacuity_situations_not_reached_before_budget_expired", 1)
+				continue
+			}
 			c.HarnessError("vacuous: no generated program exercised %q", k)
 		}
 	}
